@@ -10,21 +10,28 @@ class UMix(NodeMixin):
         self.parent = parent
 
 
-class ULightS(LightNodeMixin):
-    __slots__ = "v"          # a single string is a legal __slots__ declaration
+class _ULightS(LightNodeMixin):
+    __slots__ = "val"        # a single string is a legal __slots__ declaration (one slot named "val")
 
     def __init__(self, parent=None, v=0, lbl=0):
-        self.v = v
+        self.val = v
         self.parent = parent
+
+
+ULightS = _ULightS           # the class name itself starts with an underscore (private-name mangling corner)
 
 
 class ULight(LightNodeMixin):
-    __slots__ = ("v", "lbl")
+    __slots__ = ("v", "__lbl")          # one public and one private (name-mangled) slot
 
     def __init__(self, parent=None, v=0, lbl=0):
         self.v = v
-        self.lbl = lbl
+        self.__lbl = lbl
         self.parent = parent
+
+    @property
+    def lbl(self):
+        return self.__lbl
 
 
 TAGS = {AnyNode: 1, Node: 2, SymlinkNode: 3, UMix: 4, ULight: 5, ULightS: 6}
@@ -51,7 +58,7 @@ def graph(universe_entry):
 
 def attrs_of(n):
     if isinstance(n, ULightS):
-        return [["v", getattr(n, "v", -1)]]
+        return [["v", getattr(n, "val", -1)]]
     if isinstance(n, ULight):
         return [["v", getattr(n, "v", -1)], ["lbl", getattr(n, "lbl", -1)]]
     return sorted([k, v] for k, v in n.__dict__.items() if not k.startswith("_NodeMixin__") and k != "target")
